@@ -25,6 +25,7 @@ type WorkerSpec struct {
 	PlanFile string `json:"plan_file,omitempty"` // replay mode: execute exactly this plan
 	Trace    bool   `json:"trace,omitempty"`
 	Progress string `json:"progress,omitempty"` // file rewritten before each run (watchdog)
+	Deep     bool   `json:"deep,omitempty"`     // thorough tier: every other run is drawn from the deep zone (longer plans)
 }
 
 func runOne(t *testing.T, p *Plan, keepTrace bool) (res *Result) {
@@ -80,7 +81,11 @@ func TestWorker(t *testing.T) {
 		if spec.Deadline != 0 && time.Now().Unix() >= spec.Deadline {
 			break
 		}
-		p := NewPlan(spec.Property, spec.Master, i)
+		idx := i
+		if spec.Deep && n%2 == 1 {
+			idx |= DeepBit
+		}
+		p := NewPlan(spec.Property, spec.Master, idx)
 		if p == nil {
 			t.Fatalf("no generator for %s", spec.Property)
 		}
@@ -91,7 +96,7 @@ func TestWorker(t *testing.T) {
 		}
 		p = &rt
 		if spec.Progress != "" {
-			os.WriteFile(spec.Progress, []byte(fmt.Sprintf("%d %x", i, p.Seed)), 0o644)
+			os.WriteFile(spec.Progress, []byte(fmt.Sprintf("%d %x", idx, p.Seed)), 0o644)
 		}
 		res := runOne(t, p, spec.Trace)
 		if len(res.Violations) > 0 || res.HarnessErr != "" {
@@ -102,7 +107,7 @@ func TestWorker(t *testing.T) {
 			*Result
 			Index int `json:"index"`
 		}
-		enc.Encode(line{res, i})
+		enc.Encode(line{res, idx})
 	}
 }
 
